@@ -236,6 +236,12 @@ def run(run):
     run.notes['cases_by_family'] = kinds
     # code -> spec: the fixture workbooks, evaluated by the library; every evaluated formula is judged by TLC (Trace_Local)
     fixture_local_consistency(run)
+    # code -> spec: random multi-sheet workbooks (sheet names needing quotes / prefixes of one another, every reference spelling,
+    # ranges, names, the same formula text on several sheets), every evaluation judged by TLC with its whole closure
+    from checks import wbdrive
+    v = wbdrive.run_driver(run, 600 if run.tier == 'quick' else 30000, mix='c03')
+    if v.get('ok', 0) < 1500:
+        raise xl.MachineryError(f'random workbook driver is vacuous: {dict(v)}')
     run.rule = ('cases = done-states of MC_C03: every target cell x $ spelling x qualification from a probe on every sheet; every '
                 'rectangle x SUM/COUNTA x sheets, dense and with every sparse pattern of a 2x2 sub-block; cross-sheet chains; strips with '
                 'long blank runs; multi-letter columns; names bound to cells and ranges; resolve_ranges. Each workbook is built twice: '
